@@ -13,7 +13,7 @@ git -C /repo worktree add --detach "$W/wt" HEAD >/dev/null 2>&1
 find "$W/wt" -type f \( -name '*.cpp' -o -name '*.h' -o -name '*.in' -o -name '*.toml' \) -exec touch -d '2020-01-01' {} +
 cp -a /verif/build/obj "$W/build/obj"
 cp -a /verif/build/gen "$W/build/gen"
-find "$W/build/obj" -name '*.d' -exec sed -i "s#/repo/#$W/wt/#g; s#/verif/build/gen#$W/build/gen#g" {} +
+find "$W/build/obj" -name '*.d' -exec sed -i "s#/repo/#$W/wt/#g; s#/verif/build/gen#$W/build/gen#g; s#/verif/build/obj#$W/build/obj#g" {} +
 touch -d '2020-01-02' "$W/build/gen/hgraph/version.h"
 cp /verif/harness/gen_version.py /verif/harness/gen_stubs.py /verif/harness/stubs.cpp "$W/kit/"
 mkdir -p "$W/kit/include/catch2"
